@@ -101,7 +101,12 @@ def _worker(task):
                     except Exception as ex:      # never let counterexample decoding hide the failure
                         rec["cex"] = {"error": repr(ex)}
                 if ob.status != "proved":
-                    bad += 1
+                    # `bad` only drives PYVC_FAIL_FAST (seeded-mutant runs).  A failure confined to a declared
+                    # known-finding region is expected on the unchanged tree as well: stopping at it would leave
+                    # every later obligation of the function unchecked and let mutants survive unseen
+                    confined = any(v == "proved" for v in (rec.get("outside_region") or {}).values())
+                    if not confined:
+                        bad += 1
                 out["obligations"].append(rec)
         # canary: the same pipeline must FAIL to prove `ensures False` on the normal-return paths
         can = verify_contract(repo, REG, c, canary=True)
